@@ -2812,7 +2812,40 @@ def canonical_get_loops(modules):
                 sub = getattr(node, fld, None)
                 if not (isinstance(sub, list) and sub and all(isinstance(x, ast.stmt) for x in sub)):
                     continue
+                # `s = tuple(D.get(K, ()))` / `for x in s: B` (s used nowhere else): the loop over the expression itself
+                for i in range(len(sub) - 1):
+                    a_, b_ = sub[i], sub[i + 1]
+                    if isinstance(a_, ast.Assign) and len(a_.targets) == 1 and isinstance(a_.targets[0], ast.Name) and isinstance(b_, ast.For) \
+                            and isinstance(b_.iter, ast.Name) and b_.iter.id == a_.targets[0].id \
+                            and any(isinstance(c_, ast.Call) and isinstance(c_.func, ast.Attribute) and c_.func.attr == 'get' for c_ in ast.walk(a_.value)) \
+                            and sum(1 for x_ in ast.walk(node) if isinstance(x_, ast.Name) and x_.id == a_.targets[0].id) == 2:
+                        b_.iter = a_.value
+                        sub[i] = ast.copy_location(ast.Pass(), a_)
+                # `r = D.get(K)` / `if r is not None: for x in r: B`  (r used nowhere else): the same loop
+                for i in range(len(sub) - 1):
+                    a_, b_ = sub[i], sub[i + 1]
+                    if isinstance(a_, ast.Assign) and len(a_.targets) == 1 and isinstance(a_.targets[0], ast.Name) and isinstance(a_.value, ast.Call) \
+                            and isinstance(a_.value.func, ast.Attribute) and a_.value.func.attr == 'get' and len(a_.value.args) in (1, 2) and not a_.value.keywords \
+                            and plain(a_.value.func.value) and plain(a_.value.args[0]) \
+                            and (len(a_.value.args) == 1 or (isinstance(a_.value.args[1], ast.Constant) and a_.value.args[1].value is None)) \
+                            and isinstance(b_, ast.If) and not b_.orelse and len(b_.body) == 1 and isinstance(b_.body[0], ast.For) and not b_.body[0].orelse \
+                            and isinstance(b_.body[0].iter, ast.Name) and b_.body[0].iter.id == a_.targets[0].id:
+                        rn = a_.targets[0].id
+                        t_ = b_.test
+                        is_present = (isinstance(t_, ast.Name) and t_.id == rn) or (isinstance(t_, ast.Compare) and len(t_.ops) == 1 and isinstance(t_.ops[0], ast.IsNot)
+                                                                                 and isinstance(t_.left, ast.Name) and t_.left.id == rn and isinstance(t_.comparators[0], ast.Constant)
+                                                                                 and t_.comparators[0].value is None)
+                        uses = sum(1 for x_ in ast.walk(node) if isinstance(x_, ast.Name) and x_.id == rn)
+                        if is_present and uses == 3:
+                            loop = b_.body[0]
+                            loop.iter = ast.Call(func=ast.Attribute(value=a_.value.func.value, attr='get', ctx=ast.Load()), args=[a_.value.args[0], ast.Tuple(elts=[], ctx=ast.Load())], keywords=[])
+                            sub[i] = ast.copy_location(ast.Pass(), a_)
+                            sub[i + 1] = loop
                 for i, st in enumerate(sub):
+                    if isinstance(st, ast.For) and isinstance(st.iter, ast.Call) and isinstance(st.iter.func, ast.Name) and st.iter.func.id in ('tuple', 'list') \
+                            and len(st.iter.args) == 1 and not st.iter.keywords and isinstance(st.iter.args[0], ast.Call) and isinstance(st.iter.args[0].func, ast.Attribute) \
+                            and st.iter.args[0].func.attr == 'get':
+                        st.iter = st.iter.args[0]          # a snapshot of the looked-up list: the same elements in the same order
                     if isinstance(st, ast.For) and not st.orelse and isinstance(st.iter, ast.Call) and isinstance(st.iter.func, ast.Attribute) and st.iter.func.attr == 'get' \
                             and len(st.iter.args) == 2 and not st.iter.keywords and plain(st.iter.func.value) and plain(st.iter.args[0]) and empty(st.iter.args[1]):
                         d_, k_ = st.iter.func.value, st.iter.args[0]
